@@ -1,6 +1,7 @@
 package main
 
 import (
+	"regexp"
 	"fmt"
 	"go/token"
 	"go/types"
@@ -119,6 +120,16 @@ func (g *gen) execInstr(ins ssa.Instruction, st *State, b *ssa.BasicBlock) {
 		if vo, isVar := x.Object().(*types.Var); x.Object() != nil && (!isVar || vo.IsField()) {
 			break
 		}
+		// a variable that lives in a cell (address-taken or escaping local): every
+		// mention, by value or by address, denotes the cell; its current content
+		// is read when a contract names the variable
+		if x.Object() != nil {
+			if al, ok := g.cellOf[x.Object().Pos()]; ok {
+				g.varAt["&"+x.Object().Name()] = al
+				delete(g.varAt, x.Object().Name())
+				break
+			}
+		}
 		if x.Object() != nil && !x.IsAddr {
 			v := x.X
 			// an identifier used where an interface is expected is recorded after
@@ -143,6 +154,16 @@ func (g *gen) execInstr(ins ssa.Instruction, st *State, b *ssa.BasicBlock) {
 		g.zeroObject(st, r, et)
 		if g.dry == 0 && isPrivateCell(x) {
 			g.privCells = append(g.privCells, privCell{ref: r, t: et})
+		}
+		if x.Pos().IsValid() && x.Comment != "" && x.Comment != "complit" && x.Comment != "varargs" && x.Comment != "new" && x.Comment != "slicelit" && x.Comment != "makeslice" {
+			if g.cellOf == nil {
+				g.cellOf = map[token.Pos]*ssa.Alloc{}
+			}
+			g.cellOf[x.Pos()] = x
+			if regexp.MustCompile(`^[A-Za-z_][A-Za-z0-9_]*$`).MatchString(x.Comment) {
+				g.varAt["&"+x.Comment] = x
+				delete(g.varAt, x.Comment)
+			}
 		}
 		pv := &Val{T: x.Type(), L: []*Term{r}, Addr: &AddrInfo{Root: et, Known: true}}
 		if _, isArr := et.Underlying().(*types.Array); isArr {
